@@ -18,7 +18,6 @@ var dayRatesWater = map[string]string{
 	"GlobalVarsMain.FLUSS0": "surface flux cm/d (Evatra)",
 	"WaterSharedVars.EV":    "evaporation demand per layer cm/d (Evatra)",
 	"GlobalVarsMain.ETA":    "actual evaporation cm/d (Evatra)",
-	"WaterSharedVars.GWAUF": "uptake from groundwater layer cm/d (Evatra)",
 	"GlobalVarsMain.CAPS":   "capillary rise table cm/d (Hydro)",
 }
 var dayRatesN = map[string]string{
@@ -35,6 +34,7 @@ func checkC01(p *Prog, r *Report) {
 	dayHandover(p, r, "C01.R5")
 	c01Sweeps(p, r)
 	constantLevelRule(p, r, "C01.R7")
+	c01ReportingDepth(p, r, "C01.R8")
 }
 
 // resolvePhi substitutes φ atoms of q by the value of arm k.
@@ -779,7 +779,7 @@ func stripVersions(q Poly) Poly {
 // ---------------------------------------------------------------- R4
 
 func c01R4(p *Prog, r *Report) {
-	r.Rule("C01.R4", "reported water fluxes read the mirrored arrays: percolation/capillary counters accumulate Q1[OUTN]·c, the drain counter QDRAIN·c, the groundwater-uptake correction GWAUF·c·wdt, with one unit factor c", 5)
+	r.Rule("C01.R4", "reported water fluxes read the mirrored arrays: percolation/capillary counters accumulate Q1[OUTN]·c, the drain counter QDRAIN·c, with one unit factor c, and nothing else (a root-uptake amount booked as boundary supply would be counted twice: it already leaves the layer's storage)", 4)
 	x := walked(p, "hermes.Water")
 	if x == nil {
 		return
@@ -813,8 +813,12 @@ func c01R4(p *Prog, r *Report) {
 				c = PRat(t.C)
 			case len(t.M) == 1 && t.M[0].A.Key == "GlobalVarsMain.QDRAIN" && e.Root == "GlobalVarsMain.DRAISUM":
 				c = PRat(t.C)
-			case len(t.M) == 2 && termHas(t, "WaterSharedVars.GWAUF") && termHas(t, "wdt") && e.Root != "GlobalVarsMain.DRAISUM" && e.Root != "GlobalVarsMain.SICKER":
-				c = PRat(t.C).Neg()
+			case termMentionsUptake(t):
+				// root uptake is taken out of the layer's storage and is part of the uptake sum: booked as supply
+				// through the lower boundary as well it is counted twice (finding C01-groundwater-layer-uptake-booked-twice)
+				ok = false
+				why = append(why, "root uptake ("+termStr(t)+") booked as a lower-boundary flux although it already leaves the layer's storage as uptake: counted twice")
+				continue
 			default:
 				ok = false
 				why = append(why, "unexpected term "+termStr(t))
@@ -848,6 +852,17 @@ func c01R4(p *Prog, r *Report) {
 	}
 }
 
+// an atom that carries root uptake: the per-layer uptake array or the scalar that the evapotranspiration routine
+// fills from it for the groundwater layer
+func termMentionsUptake(t *Term) bool {
+	for _, f := range t.M {
+		if f.A.Root == "GlobalVarsMain.TP" || strings.HasSuffix(f.A.Root, ".GWAUF") || strings.HasSuffix(f.A.Key, ".GWAUF") {
+			return true
+		}
+	}
+	return false
+}
+
 func termHas(t *Term, key string) bool {
 	for _, f := range t.M {
 		if f.A.Key == key && f.E == 1 {
@@ -862,7 +877,7 @@ func termHas(t *Term, key string) bool {
 // path of every day's call, otherwise a day without that process keeps using
 // yesterday's value (phantom uptake or groundwater supply).
 func dayHandover(p *Prog, r *Report, rule string) {
-	r.Rule(rule, "daily hand-over from evapotranspiration to the water kernel: surface flux, actual evaporation, groundwater uptake, per-layer root uptake and per-layer evaporation are assigned on every path of the daily routine (scalars outside loops; arrays by a sweep over all layers whose arms cover every layer), so no value of an earlier day survives; the start-of-day water content of every layer is yesterday's end-of-day value on every day after the first", 9)
+	r.Rule(rule, "daily hand-over from evapotranspiration to the water kernel: surface flux, actual evaporation, per-layer root uptake and per-layer evaporation are assigned on every path of the daily routine (scalars outside loops; arrays by a sweep over all layers whose arms cover every layer), so no value of an earlier day survives; the start-of-day water content of every layer is yesterday's end-of-day value on every day after the first", 8)
 	x := walked(p, "hermes.Evatra")
 	if x == nil {
 		r.Ob("Evatra", "-", false, "hermes.Evatra not found")
@@ -871,7 +886,7 @@ func dayHandover(p *Prog, r *Report, rule string) {
 	items := []struct {
 		root  string
 		array bool
-	}{{"GlobalVarsMain.FLUSS0", false}, {"GlobalVarsMain.ETA", false}, {"WaterSharedVars.GWAUF", false}, {"GlobalVarsMain.TP", true}, {"WaterSharedVars.EV", true}}
+	}{{"GlobalVarsMain.FLUSS0", false}, {"GlobalVarsMain.ETA", false}, {"GlobalVarsMain.TP", true}, {"WaterSharedVars.EV", true}}
 	// the state itself: on every day but the first the start-of-day water content of every layer is yesterday's
 	// end-of-day value (the water kernel reads WG[0] on the first sub-step)
 	{
